@@ -231,8 +231,8 @@ func init() {
 		MinNontrivial: 5000,
 		Streams: []Stream{
 			{Name: "exhaustive", N: func(c *Ctx) int { return c16Count(c16Len(c)) }, Run: c16Exhaustive, Exhaustive: true},
-			{Name: "random", N: func(c *Ctx) int { return tierN(c, 10000, 200000) }, Run: c16Random},
-			{Name: "values", N: func(c *Ctx) int { return tierN(c, 20000, 400000) }, Run: c16Values},
+			{Name: "random", N: func(c *Ctx) int { return tierN(c, 10000, 1000000) }, Run: c16Random},
+			{Name: "values", N: func(c *Ctx) int { return tierN(c, 20000, 1500000) }, Run: c16Values},
 		},
 	})
 }
